@@ -102,14 +102,14 @@ func (o conOp) do(r *Router) string {
 }
 
 type scenario struct {
-	Name    string     `json:"name"`
-	Cfg     RouterCfg  `json:"cfg"`
-	Setup   []Op       `json:"setup"`
-	Threads [][]conOp  `json:"threads"`
-	Bound   int        `json:"bound"`
-	MaxExec int64      `json:"maxexec"`
-	Only    []int      `json:"only,omitempty"` // replay exactly this schedule
-	Prop    string     `json:"prop"`
+	Name    string    `json:"name"`
+	Cfg     RouterCfg `json:"cfg"`
+	Setup   []Op      `json:"setup"`
+	Threads [][]conOp `json:"threads"`
+	Bound   int       `json:"bound"`
+	MaxExec int64     `json:"maxexec"`
+	Only    []int     `json:"only,omitempty"` // replay exactly this schedule
+	Prop    string    `json:"prop"`
 }
 
 type scenOut struct {
@@ -294,94 +294,99 @@ func runScenario(raw json.RawMessage) (any, error) {
 	}
 
 	run := func(s *explore.Sched) explore.ExecResult {
-		r, _, perr := buildHistory(sc.Cfg, sc.Setup)
-		if perr != "" {
-			return explore.ExecResult{Viols: []explore.Violation{{Property: sc.Prop, Clause: sc.Prop + ".setup", Class: "setup-panic", Observed: perr, Expected: "setup succeeds"}}}
-		}
-		types.VerifDrainPool()
-		calls := make([]callRec, len(flat))
-		bodies := make([]func(), n)
-		k0 := 0
-		for t := range sc.Threads {
-			t, base := t, k0
-			k0 += len(sc.Threads[t])
-			bodies[t] = func() {
-				for i, op := range sc.Threads[t] {
-					c := &calls[base+i]
-					c.thread, c.idx = t, i
-					c.call = s.Now()
-					c.result = op.do(r)
-					c.ret = s.Now()
-					s.Yield()
+		var raceViols []explore.Violation
+		res0 := func() explore.ExecResult {
+			r, _, perr := buildHistory(sc.Cfg, sc.Setup)
+			if perr != "" {
+				return explore.ExecResult{Viols: []explore.Violation{{Property: sc.Prop, Clause: sc.Prop + ".setup", Class: "setup-panic", Observed: perr, Expected: "setup succeeds"}}}
+			}
+			types.VerifDrainPool()
+			calls := make([]callRec, len(flat))
+			bodies := make([]func(), n)
+			k0 := 0
+			for t := range sc.Threads {
+				t, base := t, k0
+				k0 += len(sc.Threads[t])
+				bodies[t] = func() {
+					for i, op := range sc.Threads[t] {
+						c := &calls[base+i]
+						c.thread, c.idx = t, i
+						c.call = s.Now()
+						c.result = op.do(r)
+						c.ret = s.Now()
+						s.Yield()
+					}
 				}
 			}
-		}
-		races0 := explore.RaceErrors()
-		mux.VerifSetHook(s.Hook)
-		hv.Point = s.Yield
-		s.Run(bodies)
-		mux.VerifSetHook(nil)
-		hv.Point = nil
-		sched := explore.ScheduleString(s.Points())
-		mk := func(clause, class, obs, exp string) explore.ExecResult {
-			only := explore.Choices(s.Points())
-			rs := sc
-			rs.Only = only
-			return explore.ExecResult{Viols: []explore.Violation{{Property: sc.Prop, Clause: clause, Class: class, Config: sc.Cfg.String() + " setup: " + strings.Join(opsStrings(sc.Setup), "; "),
-				History: []string{sc.Name}, Probe: "schedule (thread running at each point) " + sched, Observed: obs, Expected: exp,
-				Replay: explore.ItemReplay("c06/scenario", rs)}}}
-		}
-		if s.Diverged != "" {
-			return mk(sc.Prop+".harness", "replay-diverged", s.Diverged, "deterministic replay")
-		}
-		if d := explore.RaceErrors() - races0; d > 0 {
-			classes, summary := explore.RaceClasses(rlog.Next())
-			var res explore.ExecResult
-			for _, class := range classes {
-				res.Viols = append(res.Viols, mk(sc.Prop+".race", "race:"+class, "data race: "+class, "no data race\n"+summary).Viols...)
+			races0 := explore.RaceErrors()
+			mux.VerifSetHook(s.Hook)
+			hv.Point = s.Yield
+			s.Run(bodies)
+			mux.VerifSetHook(nil)
+			hv.Point = nil
+			sched := explore.ScheduleString(s.Points())
+			mk := func(clause, class, obs, exp string) explore.ExecResult {
+				only := explore.Choices(s.Points())
+				rs := sc
+				rs.Only = only
+				return explore.ExecResult{Viols: []explore.Violation{{Property: sc.Prop, Clause: clause, Class: class, Config: sc.Cfg.String() + " setup: " + strings.Join(opsStrings(sc.Setup), "; "),
+					History: []string{sc.Name}, Probe: "schedule (thread running at each point) " + sched, Observed: obs, Expected: exp,
+					Replay: explore.ItemReplay("c06/scenario", rs)}}}
 			}
-			if len(res.Viols) == 0 {
-				return mk(sc.Prop+".race", "race:unclassified", fmt.Sprintf("%d race report(s), log not readable", d), "no data race")
+			if s.Diverged != "" {
+				return mk(sc.Prop+".harness", "replay-diverged", s.Diverged, "deterministic replay")
 			}
-			return res
-		}
-		if s.Deadlock {
-			return mk(sc.Prop+".deadlock", "deadlock", "threads unfinished, none enabled", "no deadlock")
-		}
-		if s.Horizon {
-			return mk(sc.Prop+".horizon", "horizon", "execution exceeded the point horizon", "termination")
-		}
-		for t := 0; t < n; t++ {
-			if e := explore.TakePanic(t); e != nil {
-				return mk(sc.Prop+".fault", "thread-panic:"+shortPanic(e), fmt.Sprintf("thread %d panicked: %v", t, e), "no runtime fault")
+			if d := explore.RaceErrors() - races0; d > 0 {
+				classes, summary := explore.RaceClasses(rlog.Next())
+				var res explore.ExecResult
+				for _, class := range classes {
+					res.Viols = append(res.Viols, mk(sc.Prop+".race", "race:"+class, "data race: "+class, "no data race\n"+summary).Viols...)
+				}
+				if len(res.Viols) == 0 {
+					return mk(sc.Prop+".race", "race:unclassified", fmt.Sprintf("%d race report(s), log not readable", d), "no data race")
+				}
+				raceViols = res.Viols // keep checking: which races get (re)reported depends on what the process reported before
 			}
-		}
-		var obs []string
-		for _, c := range calls {
-			obs = append(obs, c.result)
-			if strings.HasPrefix(c.result, "PANIC") || strings.HasPrefix(c.result, "panic(") && !strings.HasPrefix(c.result, "panic(error)") || c.result == "NIL-HANDLER" {
-				return mk(sc.Prop+".fault", "op-fault:"+shortPanic(c.result), fmt.Sprintf("%s -> %s", sc.Threads[c.thread][c.idx], c.result), "no runtime fault, no nil handler")
+			if s.Deadlock {
+				return mk(sc.Prop+".deadlock", "deadlock", "threads unfinished, none enabled", "no deadlock")
 			}
-		}
-		final := RoutesString(RoutesOf(r))
-		okLin := linearizations(calls, func(order []int) bool {
-			sr := seq(order)
-			for k := range calls {
-				if sr.results[k] != calls[k].result {
-					return false
+			if s.Horizon {
+				return mk(sc.Prop+".horizon", "horizon", "execution exceeded the point horizon", "termination")
+			}
+			for t := 0; t < n; t++ {
+				if e := explore.TakePanic(t); e != nil {
+					return mk(sc.Prop+".fault", "thread-panic:"+shortPanic(e), fmt.Sprintf("thread %d panicked: %v", t, e), "no runtime fault")
 				}
 			}
-			return sr.final == final
-		})
-		oc := strings.Join(obs, " | ")
-		if !okLin {
-			var detail []string
+			var obs []string
 			for _, c := range calls {
-				detail = append(detail, fmt.Sprintf("T%d %s [%d,%d] -> %s", c.thread, sc.Threads[c.thread][c.idx], c.call, c.ret, c.result))
+				obs = append(obs, c.result)
+				if strings.HasPrefix(c.result, "PANIC") || strings.HasPrefix(c.result, "panic(") && !strings.HasPrefix(c.result, "panic(error)") || c.result == "NIL-HANDLER" {
+					return mk(sc.Prop+".fault", "op-fault:"+shortPanic(c.result), fmt.Sprintf("%s -> %s", sc.Threads[c.thread][c.idx], c.result), "no runtime fault, no nil handler")
+				}
 			}
-			return mk(sc.Prop+".linearizable", "non-linearizable", strings.Join(detail, " ; ")+" ; final "+final, "results equal to some sequential order of the calls consistent with real time")
-		}
-		return explore.ExecResult{Outcome: oc}
+			final := RoutesString(RoutesOf(r))
+			okLin := linearizations(calls, func(order []int) bool {
+				sr := seq(order)
+				for k := range calls {
+					if sr.results[k] != calls[k].result {
+						return false
+					}
+				}
+				return sr.final == final
+			})
+			oc := strings.Join(obs, " | ")
+			if !okLin {
+				var detail []string
+				for _, c := range calls {
+					detail = append(detail, fmt.Sprintf("T%d %s [%d,%d] -> %s", c.thread, sc.Threads[c.thread][c.idx], c.call, c.ret, c.result))
+				}
+				return mk(sc.Prop+".linearizable", "non-linearizable", strings.Join(detail, " ; ")+" ; final "+final, "results equal to some sequential order of the calls consistent with real time")
+			}
+			return explore.ExecResult{Outcome: oc}
+		}()
+		res0.Viols = append(raceViols, res0.Viols...)
+		return res0
 	}
 
 	onExec := func(s *explore.Sched, r explore.ExecResult) {
